@@ -110,6 +110,13 @@ impl HandshakeStateMachine {
         Ok(())
     }
 
+    /// A refusal, an undecodable message or a failed digest check ends this
+    /// handshake: only `disconnect` leads on from `Failed`.
+    fn fail(&mut self, err: Error) -> Error {
+        self.state = ConnectionState::Failed;
+        err
+    }
+
     pub fn begin_connect(&mut self) -> Result<()> {
         self.expect_state(ConnectionState::Disconnected, ConnectionState::Connecting)?;
         self.state = ConnectionState::Connecting;
@@ -130,11 +137,11 @@ impl HandshakeStateMachine {
             ConnectionState::AwaitingStatus,
             ConnectionState::AwaitingChallenge,
         )?;
-        let status_msg = StatusMessage::decode(data)?;
+        let status_msg = StatusMessage::decode(data).map_err(|e| self.fail(e))?;
         if !status_msg.status.is_ok() {
-            return Err(Error::ConnectionRefused {
+            return Err(self.fail(Error::ConnectionRefused {
                 reason: format!("Status: {}", status_msg.status),
-            });
+            }));
         }
         self.state = ConnectionState::AwaitingChallenge;
         Ok(())
@@ -161,7 +168,7 @@ impl HandshakeStateMachine {
             ConnectionState::AwaitingChallenge,
             ConnectionState::SendingChallengeReply,
         )?;
-        let challenge = Challenge::decode(data)?;
+        let challenge = Challenge::decode(data).map_err(|e| self.fail(e))?;
 
         self.negotiated_flags = Some(DistributionFlags::new(
             challenge.flags.as_u64() & self.flags.as_u64(),
@@ -198,14 +205,14 @@ impl HandshakeStateMachine {
             ConnectionState::AwaitingChallengeAck,
             ConnectionState::Connected,
         )?;
-        let ack = ChallengeAck::decode(data)?;
+        let ack = ChallengeAck::decode(data).map_err(|e| self.fail(e))?;
 
         let our_challenge = self
             .our_challenge
             .ok_or_else(|| Error::InvalidStateMessage("no our_challenge set".to_string()))?;
 
         if !ack.verify(our_challenge, &self.cookie) {
-            return Err(Error::AuthenticationFailed);
+            return Err(self.fail(Error::AuthenticationFailed));
         }
 
         self.state = ConnectionState::Connected;
